@@ -33,6 +33,11 @@ var solvers = []solverDef{
 	{"z3-new/noauto", func(f string, t, seed int) []string {
 		return []string{"z3-new", fmt.Sprintf("-T:%d", t), "smt.auto_config=false", fmt.Sprintf("smt.random_seed=%d", seed), f}
 	}},
+	{"z3-new/arith2", func(f string, t, seed int) []string {
+		// the previous simplex core: index equalities modulo linear arithmetic under uninterpreted functions (select/idx) are decided
+		// quickly where the default arithmetic solver is seed-sensitive (C34 ParseCustodianUpdateNodesExtra [content]), and vice versa
+		return []string{"z3-new", fmt.Sprintf("-T:%d", t), "smt.arith.solver=2", fmt.Sprintf("smt.random_seed=%d", seed), f}
+	}},
 	{"z3", func(f string, t, seed int) []string {
 		return []string{"z3", fmt.Sprintf("-T:%d", t), fmt.Sprintf("smt.random_seed=%d", seed), f}
 	}},
@@ -183,6 +188,7 @@ type solveOpts struct {
 	retryS   int
 	seed     int
 	keep     bool
+	known    map[string]bool // obligations registered in known_findings.json: one short attempt, no long retry (see attempt below)
 }
 
 // solveAll decides every obligation of the context. Batch pass with z3-new first, stragglers individually on all solvers.
@@ -289,7 +295,13 @@ func (fc *FnCtx) solveAll(o solveOpts, tag string) {
 				defer func() { <-sem }()
 				f := fmt.Sprintf("%s.%d.smt2", base, i)
 				os.WriteFile(f, []byte(fc.renderOne(ob, true)), 0o644)
-				res := raceSolvers(f, timeoutS, seed, "")
+				t := timeoutS
+				if o.known[ob.Name] && t > 5 {
+					// a registered known finding is reported as KNOWN-FINDING whether the solvers say sat, unknown or time out
+					// (the quantified prelude rarely lets them produce a model): do not spend the straggler budget on it
+					t = 5
+				}
+				res := raceSolvers(f, t, seed, "")
 				if ob.Cover && res.Verdict != "unsat" {
 					// vacuity probe: anything but a refutation passes (quantified backgrounds rarely yield models)
 					res.Attempts = append(res.Attempts, "cover: not refuted ("+res.Verdict+")")
@@ -312,7 +324,7 @@ func (fc *FnCtx) solveAll(o solveOpts, tag string) {
 	attempt(o.quickS, o.seed, map[*Obligation]bool{})
 	undecided := map[*Obligation]bool{}
 	for _, ob := range fc.obls {
-		if ob.Result != nil && ob.Result.Verdict != want(ob) && ob.Result.Verdict != "sat" && ob.Result.Verdict != "unsat" {
+		if ob.Result != nil && ob.Result.Verdict != want(ob) && ob.Result.Verdict != "sat" && ob.Result.Verdict != "unsat" && !o.known[ob.Name] {
 			undecided[ob] = true
 		}
 	}
